@@ -166,6 +166,18 @@ fn prim(sc: &mut Sc, line: String) -> String {
     sc.ex.ops.push(line.clone());
     sc.ex.res.push(res.clone());
     sc.count(&format!("prim.{}", parts[2]));
+    // C20 oracle (implementation only): what the ring backend computes for a hash / cipher operation is what the
+    // default backend computes for it (the contents of failure buffers, `buf=`, are backend-specific and left out)
+    if parts[1] == "ring" && matches!(parts[2], "hash" | "hmac" | "hkdf" | "hashseq" | "hmacseq" | "enc" | "dec" | "rekey") && res != "none" {
+        let mut p2 = parts.clone();
+        p2[1] = "default";
+        let other = prim_result(&p2);
+        let strip = |x: &str| x.split(" buf=").next().unwrap_or("").to_string();
+        sc.count("prim.ring_vs_default");
+        if other != "none" && strip(&other) != strip(&res) {
+            sc.viol("C20", format!("ring and default backends differ on `{}`: {} vs {}", &line[..line.len().min(160)], &res[..res.len().min(100)], &other[..other.len().min(100)]));
+        }
+    }
     res
 }
 
